@@ -229,7 +229,7 @@ theorem gc_kept_body_emits (m : ModuleM) (g : GcInfo) (hg : mkGcInfo m = some g)
     | instr i loc =>
       cases i with
       | leaf op =>
-        intro sp n hmem hl' hy
+        intro sp n hmem hl' _ hy
         by_cases hx : sp = "x"
         · subst hx
           have hu := usedLocals_mem _ op loc n hev' hmem
@@ -246,7 +246,11 @@ theorem gc_kept_body_emits (m : ModuleM) (g : GcInfo) (hg : mkGcInfo m = some g)
             simp only [List.mem_filterMap]
             exact ⟨.ref sp n, hmem, by simp [hx, hl']⟩
           exact gc_body_operands_have_indices m g hg hlen hw pf.id pf hloc hpf2 hf (lmapOf pf tyOf) (sp, n) hy'
-            (fun h => hety n (hy h))
+            (fun h => by
+              obtain ⟨i, hi⟩ := hy
+              simp only at h
+              subst h
+              exact hety n (penv_get_y _ i n hi))
       | _ => trivial
     | start s ty =>
       cases ty with
